@@ -79,6 +79,7 @@ OPS = {
 # compat forms the crate speaks: only these leaves of the kernel struct are on the wire
 COMPAT = {'fuse_setxattr_in': ['size', 'flags'], 'fuse_init_in': ['major', 'minor', 'max_readahead', 'flags']}
 NEEDS_REPLY = [o for o in OPS if o not in (2, 42, 36, 41)]
+CHAN_BUFSIZE = 256 * 4096 + 0x1000     # FuseSession.bufsize on a 4 KiB-page host (checked by C12 against the source)
 
 def boundary(rng, w, avoid=()):
     bits = 8 * w
@@ -284,8 +285,10 @@ def segs(rng, total):
     return out
 
 def make_case(rng, i, req, fs, wf=None, transport=None, cap=None, remap=None, minor=None, vu=None):
-    tr = transport or rng.choice(['fusedev', 'fusedev', 'virtio'])
+    # 'chan' = the real FuseSession/FuseChannel::get_request path (Reader and Writer share one buffer of the session size)
+    tr = transport or rng.choice(['fusedev', 'fusedev', 'virtio', 'chan'])
     cap = reply_cap_for(rng, wf) if cap is None else cap
+    if tr == 'chan': cap = CHAN_BUFSIZE
     remap = remap if remap is not None else (rng.choice([(0, 0), (0, 0), (1000, 2000), 'fail']) if rng.random() < 0.3 else (0, 0))
     c = {'id': i, 'tr': tr, 'cap': cap, 'req': req, 'fs': fs, 'remap': remap,
          'minor': minor if minor is not None else (rng.choice([None, None, None, 3, 4, 33])),
